@@ -1,5 +1,5 @@
 (* C20 — the mock swap program's fills registry is a lossless FIFO of capacity 8.  Property theorems only. *)
-From DZ Require Import Base Swap_Ring Lemmas_C20.
+From DZ Require Import Base Generated Swap_Ring Lemmas_C20.
 
 (* For every operation sequence (any length, any amounts, any interleaving) the registry as coded returns exactly
    what a list queue of capacity 8 returns: a buy is refused iff 8 fills are outstanding, a dequeue succeeds iff the
@@ -45,3 +45,9 @@ Theorem C20_pinned_refuted :
   run queue_step [] c20_witness = [ROk; ROk; ROkRet 1 10 1; ROk; ROkRet 2 20 1; ROkRet 3 30 1]%N.
 Proof. exact ring_pinned_refuted. Qed.
 Print Assumptions C20_pinned_refuted.
+
+(* the capacity and registry layout the model assumes are the crate's current ones *)
+Theorem C20_capacity_is_crate_constant : CAP = N.to_nat G_FILLS_CAPACITY /\ G_FILLS_REGISTRY_SIZE = (8 + 16 * G_FILLS_CAPACITY)%N.
+Proof. exact cap_is_generated. Qed.
+Check C20_capacity_is_crate_constant : CAP = N.to_nat G_FILLS_CAPACITY /\ G_FILLS_REGISTRY_SIZE = (8 + 16 * G_FILLS_CAPACITY)%N.
+Print Assumptions C20_capacity_is_crate_constant.
